@@ -388,7 +388,15 @@ def generate_section(section, repo_root, em, res):
             if not idx:
                 # pure insertion: a proof hint that sits exactly here could belong before or after the new tokens (a block that
                 # /repo closes at this point may or may not contain it): its place is ambiguous, the hint is dropped
-                for node in anchors.get(i1, []):
+                # (only when the new tokens open or close a block: balanced statements simply go in front of the hint, as they always did)
+                depth = low = 0
+                for t_, _ in run:
+                    if t_.text in ('{', '(', '['):
+                        depth += 1
+                    elif t_.text in ('}', ')', ']'):
+                        depth -= 1
+                        low = min(low, depth)
+                for node in (anchors.get(i1, []) if (depth != 0 or low < 0) else []):
                     if isinstance(node, Ins) and node.label.split()[:1] == ['proof'] and id(node) not in dropped_nodes and id(node) not in dropped_hints:
                         dropped_hints.add(id(node))
                         res.hints_dropped.append('%s:%d' % (os.path.basename(section.mirror_file), node.toks[0].line))
